@@ -254,18 +254,29 @@ func (in *Interp) stmt(s *lang.N, env *Env) (Val, ctl, *Raise) {
 		if r != nil {
 			return nil, cNone, r
 		}
-		l, ok := v.(*List)
-		if !ok {
-			return nil, cNone, raise("type error", "unpack of non-list")
+		// any container unpacks: a list gives its elements, a string its characters, a map its
+		// keys in sorted order
+		var items []Val
+		switch x := v.(type) {
+		case *List:
+			items = x.E
+		case string, *Map:
+			keys, vals, _ := iterate(x)
+			items = vals
+			if _, isMap := x.(*Map); isMap {
+				items = keys
+			}
+		default:
+			return nil, cNone, raise("type error", "unpack of a non-container")
 		}
-		if len(l.E) != len(s.Names) {
+		if len(items) != len(s.Names) {
 			return nil, cNone, raise("unpack", "unpack count mismatch")
 		}
 		for i, n := range s.Names {
 			if s.K == lang.SMultiVar {
-				env.vars[n] = &Cell{V: l.E[i]}
+				env.vars[n] = &Cell{V: items[i]}
 			} else {
-				env.lookup(n).V = l.E[i]
+				env.lookup(n).V = items[i]
 			}
 		}
 		return nil, cNone, nil
